@@ -524,7 +524,7 @@ theorem fixedRound_eq_roundAt (b : Nat) (ds : List Nat) (x prec : Int) :
         split <;> simp_all
 
 theorem request_fst (P : Params) (fprec : Nat) (fexp : Int) :
-    (request P fprec fexp).1 = if P.prec ≤ -1 ∧ P.conv = 3 then (mpfSignificantDigits P.base.natAbs fprec : Int) else P.prec := by
+    (request P fprec fexp).1 = if P.prec ≤ -1 ∧ P.conv = 3 then (MpfStr.maxDigits P.base.natAbs fprec : Int) else P.prec := by
   unfold request
   simp only []
   split_ifs <;> simp_all
@@ -544,7 +544,7 @@ theorem specF_prefix (c : FConv) : (match c with | .a => ['0', 'x'] | .A => ['0'
 theorem layoutOn_closed (c : FConv) (f : Flags) (W : Nat) (prec : FPrec) (fprec : Nat) (fexp : Int)
     (neg : Bool) (ds : List Nat) (x : Int) (hz : ds = [] → x = 0) :
     callsBytes (layoutOn (closedParams c f W prec) (request (closedParams c f W prec) fprec fexp).1 neg ds x) =
-      specF c f W prec (mpfSignificantDigits c.base fprec) neg ds x := by
+      specF c f W prec (MpfStr.maxDigits c.base fprec) neg ds x := by
   unfold layoutOn specF
   simp only [closed_upper, specF_prefix]
   rw [← sign_closed c f W prec neg]
@@ -643,7 +643,7 @@ theorem layoutOn_closed (c : FConv) (f : Flags) (W : Nat) (prec : FPrec) (fprec 
     | dflt =>
       have hP : (closedParams .g f W .dflt).conv = 3 := rfl
       have hst : (closedParams .g f W .dflt).showtrailing = f.hash := by simp [closedParams, isHex, convNum]
-      have hprec : (if (closedParams .g f W .dflt).prec ≤ -1 then (mpfSignificantDigits 10 fprec : Int)
+      have hprec : (if (closedParams .g f W .dflt).prec ≤ -1 then (MpfStr.maxDigits 10 fprec : Int)
           else (closedParams .g f W .dflt).prec) = ((6 : Nat) : Int) := by
         rfl
       rw [hprec]
@@ -682,17 +682,17 @@ theorem layoutOn_closed (c : FConv) (f : Flags) (W : Nat) (prec : FPrec) (fprec 
     | all =>
       have hP : (closedParams .g f W .all).conv = 3 := rfl
       have hst : (closedParams .g f W .all).showtrailing = f.hash := by simp [closedParams, isHex, convNum]
-      have hprec : (if (closedParams .g f W .all).prec ≤ -1 then (mpfSignificantDigits 10 fprec : Int)
-          else (closedParams .g f W .all).prec) = ((mpfSignificantDigits 10 fprec : Nat) : Int) := by
+      have hprec : (if (closedParams .g f W .all).prec ≤ -1 then (MpfStr.maxDigits 10 fprec : Int)
+          else (closedParams .g f W .all).prec) = ((MpfStr.maxDigits 10 fprec : Nat) : Int) := by
         rfl
       rw [hprec]
-      have hmax : (((max 1 (mpfSignificantDigits 10 fprec) : Nat)) : Int) = max 1 ((mpfSignificantDigits 10 fprec : Nat) : Int) := by omega
+      have hmax : (((max 1 (MpfStr.maxDigits 10 fprec) : Nat)) : Int) = max 1 ((MpfStr.maxDigits 10 fprec : Nat) : Int) := by omega
       simp only [show FConv.g.base = 10 from rfl, hmax]
-      by_cases hs : x - 1 < -4 ∨ x - 1 ≥ max 1 ((mpfSignificantDigits 10 fprec : Nat) : Int)
+      by_cases hs : x - 1 < -4 ∨ x - 1 ≥ max 1 ((MpfStr.maxDigits 10 fprec : Nat) : Int)
       · simp only [hs, if_true]
         cases hh : f.hash with
         | true =>
-          rw [emit_sci .g f W .all sign ds x _ (some (max 1 (mpfSignificantDigits 10 fprec) - 1)) hz]
+          rw [emit_sci .g f W .all sign ds x _ (some (max 1 (MpfStr.maxDigits 10 fprec) - 1)) hz]
           · simp [isHex, expLetter, FConv.upper, fPrefix, hh]
           · simp only [hst, hP, hh, if_true]
             by_cases hl : ds.length = 0
@@ -705,7 +705,7 @@ theorem layoutOn_closed (c : FConv) (f : Flags) (W : Nat) (prec : FPrec) (fprec 
       · simp only [hs, if_false]
         cases hh : f.hash with
         | true =>
-          rw [emit_fixed .g rfl f W .all sign ds x _ (some (if x ≥ 1 then (mpfSignificantDigits 10 fprec) - x.toNat else (mpfSignificantDigits 10 fprec) - 1))]
+          rw [emit_fixed .g rfl f W .all sign ds x _ (some (if x ≥ 1 then (MpfStr.maxDigits 10 fprec) - x.toNat else (MpfStr.maxDigits 10 fprec) - 1))]
           · simp [FConv.upper, hh]
           · simp only [hst, hP, hh, if_true]
             unfold fA fIz
@@ -721,7 +721,7 @@ theorem layoutOn_closed (c : FConv) (f : Flags) (W : Nat) (prec : FPrec) (fprec 
     | num n =>
       have hP : (closedParams .g f W (.num n)).conv = 3 := rfl
       have hst : (closedParams .g f W (.num n)).showtrailing = f.hash := by simp [closedParams, isHex, convNum]
-      have hprec : (if (closedParams .g f W (.num n)).prec ≤ -1 then (mpfSignificantDigits 10 fprec : Int)
+      have hprec : (if (closedParams .g f W (.num n)).prec ≤ -1 then (MpfStr.maxDigits 10 fprec : Int)
           else (closedParams .g f W (.num n)).prec) = ((n : Nat) : Int) := by
         have hp1 : (closedParams .g f W (.num n)).prec = (n : Int) := rfl
         simp only [hp1, show ¬ ((n : Int) ≤ -1) by omega, if_false]
@@ -768,7 +768,7 @@ theorem layoutOn_closed (c : FConv) (f : Flags) (W : Nat) (prec : FPrec) (fprec 
     | dflt =>
       have hP : (closedParams .G f W .dflt).conv = 3 := rfl
       have hst : (closedParams .G f W .dflt).showtrailing = f.hash := by simp [closedParams, isHex, convNum]
-      have hprec : (if (closedParams .G f W .dflt).prec ≤ -1 then (mpfSignificantDigits 10 fprec : Int)
+      have hprec : (if (closedParams .G f W .dflt).prec ≤ -1 then (MpfStr.maxDigits 10 fprec : Int)
           else (closedParams .G f W .dflt).prec) = ((6 : Nat) : Int) := by
         rfl
       rw [hprec]
@@ -807,17 +807,17 @@ theorem layoutOn_closed (c : FConv) (f : Flags) (W : Nat) (prec : FPrec) (fprec 
     | all =>
       have hP : (closedParams .G f W .all).conv = 3 := rfl
       have hst : (closedParams .G f W .all).showtrailing = f.hash := by simp [closedParams, isHex, convNum]
-      have hprec : (if (closedParams .G f W .all).prec ≤ -1 then (mpfSignificantDigits 10 fprec : Int)
-          else (closedParams .G f W .all).prec) = ((mpfSignificantDigits 10 fprec : Nat) : Int) := by
+      have hprec : (if (closedParams .G f W .all).prec ≤ -1 then (MpfStr.maxDigits 10 fprec : Int)
+          else (closedParams .G f W .all).prec) = ((MpfStr.maxDigits 10 fprec : Nat) : Int) := by
         rfl
       rw [hprec]
-      have hmax : (((max 1 (mpfSignificantDigits 10 fprec) : Nat)) : Int) = max 1 ((mpfSignificantDigits 10 fprec : Nat) : Int) := by omega
+      have hmax : (((max 1 (MpfStr.maxDigits 10 fprec) : Nat)) : Int) = max 1 ((MpfStr.maxDigits 10 fprec : Nat) : Int) := by omega
       simp only [show FConv.G.base = 10 from rfl, hmax]
-      by_cases hs : x - 1 < -4 ∨ x - 1 ≥ max 1 ((mpfSignificantDigits 10 fprec : Nat) : Int)
+      by_cases hs : x - 1 < -4 ∨ x - 1 ≥ max 1 ((MpfStr.maxDigits 10 fprec : Nat) : Int)
       · simp only [hs, if_true]
         cases hh : f.hash with
         | true =>
-          rw [emit_sci .G f W .all sign ds x _ (some (max 1 (mpfSignificantDigits 10 fprec) - 1)) hz]
+          rw [emit_sci .G f W .all sign ds x _ (some (max 1 (MpfStr.maxDigits 10 fprec) - 1)) hz]
           · simp [isHex, expLetter, FConv.upper, fPrefix, hh]
           · simp only [hst, hP, hh, if_true]
             by_cases hl : ds.length = 0
@@ -830,7 +830,7 @@ theorem layoutOn_closed (c : FConv) (f : Flags) (W : Nat) (prec : FPrec) (fprec 
       · simp only [hs, if_false]
         cases hh : f.hash with
         | true =>
-          rw [emit_fixed .G rfl f W .all sign ds x _ (some (if x ≥ 1 then (mpfSignificantDigits 10 fprec) - x.toNat else (mpfSignificantDigits 10 fprec) - 1))]
+          rw [emit_fixed .G rfl f W .all sign ds x _ (some (if x ≥ 1 then (MpfStr.maxDigits 10 fprec) - x.toNat else (MpfStr.maxDigits 10 fprec) - 1))]
           · simp [FConv.upper, hh]
           · simp only [hst, hP, hh, if_true]
             unfold fA fIz
@@ -846,7 +846,7 @@ theorem layoutOn_closed (c : FConv) (f : Flags) (W : Nat) (prec : FPrec) (fprec 
     | num n =>
       have hP : (closedParams .G f W (.num n)).conv = 3 := rfl
       have hst : (closedParams .G f W (.num n)).showtrailing = f.hash := by simp [closedParams, isHex, convNum]
-      have hprec : (if (closedParams .G f W (.num n)).prec ≤ -1 then (mpfSignificantDigits 10 fprec : Int)
+      have hprec : (if (closedParams .G f W (.num n)).prec ≤ -1 then (MpfStr.maxDigits 10 fprec : Int)
           else (closedParams .G f W (.num n)).prec) = ((n : Nat) : Int) := by
         have hp1 : (closedParams .G f W (.num n)).prec = (n : Int) := rfl
         simp only [hp1, show ¬ ((n : Int) ≤ -1) by omega, if_false]
